@@ -104,7 +104,7 @@ theorem markLoop_own (desc : Bool) (entry : Nat) (fuel : Nat) (st : MarkSt) (h :
                   · subst hra; simp [hia, hrlt, hf2', hn1]
                   · simp [hia, hra, hn1]
               simp only [] at hb
-              rw [hn3 (fun m => { m with nexts := [r], node := returnJump m (g1.get r).node.tok })
+              rw [hn3 (fun m => { m with nexts := [r], node := returnJump m m.node.tok })
                 (fun m => { m with prevs := insNat i m.prevs }) (fun _ => rfl) (fun _ => rfl)] at hb
               by_cases hia : i = a
               · simp [hia] at hb; omega
